@@ -168,6 +168,11 @@ fn main() {
                 _ => { eprintln!("unknown property {}", prop); std::process::exit(2); }
             }
         }
+        Some("serdelimit") => {
+            let mut st = STATE.lock().unwrap();
+            st.buf.extend_from_slice(c17::built_scale_limit().to_string().as_bytes());
+            st.buf.push(b'\n');
+        }
         Some("config") => {
             let mut st = STATE.lock().unwrap();
             st.buf.extend_from_slice(c20::cfg_string().as_bytes());
